@@ -154,6 +154,8 @@ class Scheduler:
         self.failure = None
         self.probes: dict = {}
         self.site_trace: list = []  # (thread, site) at shared sites, for the interleaving fingerprint
+        self.site_files: set = set()  # files whose shared-state sites this run reached
+        self.site_lines: set = set()  # (file, line) of the shared-looking lines this run reached
         self.max_switches = strategy.get("max_switches", 5000)
         self._next_switch = self._draw_gap()
         self._prio = None
@@ -241,6 +243,10 @@ class Scheduler:
         me.events += 1
         if len(self.site_trace) < 20000:
             self.site_trace.append((me.idx, site[0] if isinstance(site, tuple) else site))
+        if isinstance(site, tuple) and len(site) > 2 and isinstance(site[1], str):
+            self.site_files.add(site[1])
+            if site[0] == "line":
+                self.site_lines.add((site[1], site[2]))
         if self.replay is not None:
             self._replay_point(me, "shared")
             return
@@ -525,6 +531,15 @@ def shared_lines() -> dict:
     for f, tree in trees.items():
         lines = set()
         mod_names = set()
+        mutated = set()
+        for n in ast.walk(tree):
+            if isinstance(n, ast.Call) and isinstance(n.func, ast.Attribute) and isinstance(n.func.value, ast.Name) and n.func.attr in (
+                    "append", "extend", "insert", "pop", "remove", "clear", "update", "setdefault", "add", "discard", "sort", "reverse", "popitem", "appendleft"):
+                mutated.add(n.func.value.id)
+            elif isinstance(n, ast.Subscript) and isinstance(n.ctx, (ast.Store, ast.Del)) and isinstance(n.value, ast.Name):
+                mutated.add(n.value.id)
+            elif isinstance(n, ast.AugAssign) and isinstance(n.target, ast.Name):
+                mutated.add(n.target.id)
         for st in tree.body:
             tg = []
             if isinstance(st, ast.Assign):
@@ -537,7 +552,8 @@ def shared_lines() -> dict:
                 continue
             if isinstance(val, MUT) and not (isinstance(val, ast.Constant) and isinstance(val.value, (str, int, float, bytes, bool)) and val.value is not None and not isinstance(val.value, bool)):
                 for t in tg:
-                    if isinstance(t, ast.Name) and not t.id.isupper() and t.id not in ("logger",):
+                    # names written like constants count only if the file mutates them somewhere (a table filled on demand)
+                    if isinstance(t, ast.Name) and (not t.id.isupper() or t.id in mutated) and t.id not in ("logger",):
                         mod_names.add(t.id)
         class_mut_attrs = {}
         for cls in [n for n in ast.walk(tree) if isinstance(n, ast.ClassDef)]:
